@@ -158,7 +158,8 @@ TyOf(ctx, n) ==
          IF IsErr(a) THEN a ELSE IF ~IsV(a) THEN Err("K-Sort-Ret")
          ELSE IF a = n.a THEN Ret(n.a) ELSE Err("T-Ret")
     [] k = "lam" -> LET b == TyOf(Append(ctx, n.a), n.xs[1]) IN
-         IF IsErr(b) THEN b ELSE IF ~IsC(b) THEN Err("K-Sort-Lam")
+         IF ~IsV(n.a) THEN Err("K-Sort-Binder")          \* a binder stands for a value: its annotation is a value type
+         ELSE IF IsErr(b) THEN b ELSE IF ~IsC(b) THEN Err("K-Sort-Lam")
          ELSE IF b = n.c THEN Fn(n.a, n.c) ELSE Err("T-Lam-Body")
     [] k = "do" -> LET m == TyOf(ctx, n.xs[1]) b == TyOf(Append(ctx, n.a), n.xs[2]) IN
          IF IsErr(m) THEN m ELSE IF ~IsC(m) THEN Err("K-Sort-Do-Bindee")
@@ -299,6 +300,10 @@ GenFault(o) ==
        \/ IsV(ty2) /\ GenValue(ty2, ctx, LAMBDA tok, obs : Bad("wrongty", tok, obs))
        \/ IsC(ty2) /\ GenCompu(ty2, ctx, LAMBDA tok, obs : Bad("wrongty", tok, obs))
        \/ ty2 = TKind /\ \E w \in {"Int64", "VType"} : Bad("tyterm", [k |-> "tyterm", w |-> w], << >>)
+  \* a function whose binder is annotated with a COMPUTATION type (the binder is otherwise unconstrained: the
+  \* function is only defined, never applied, in the programs where this is the one fault)
+  \/ o.s = "c" /\ ty.t = "fn" /\ \E C2 \in {OS, Ret(TInt)} :
+       Bad("sortann", [k |-> "lam", a |-> C2, c |-> ty.c], <<Ob("c", ty.c, Append(ctx, C2))>>)
   \/ ty.t = "data" /\ Bad("unkctor", [k |-> "ctor", d |-> ty.n, c |-> "U"], <<Ob("v", TUnit, ctx)>>)
   \/ o.s = "c" /\ \E d \in CoNames : Thk(CoData(d)) \in BTys /\
        Bad("unkdtor", [k |-> "dtor", d |-> "zzz", c |-> ty], <<Ob("c", CoData(d), ctx)>>)
